@@ -956,8 +956,11 @@ fn step_seek(t: &mut Task, op: &Op, stats: &mut Stats, rh: &mut u64) -> Step {
     // out of range: must be an error, position unchanged (checked by later operations against the model)
     stats.hit(if neg { "fault.negative_seek" } else { "fault.seek_past_limit" });
     if ok {
+        // an accepted NEGATIVE position is also against C02: the cipher now claims a position that does not exist,
+        // so whatever it produces next is not "the keystream byte of its absolute stream position"
+        let props: &[&str] = if neg { &["C11", "C02"] } else { &["C11"] };
         return Step::Fail(Violation::new(
-            &["C11"],
+            props,
             "A5",
             format!("seek past the end accepted:{}:neg={}", cls, neg as u8),
             format!("{} try_seek::<{}>({}{}) returned Ok", kindname, TY_NAMES[ty as usize], if neg { "-" } else { "" }, v),
@@ -997,7 +1000,8 @@ fn step_pos(t: &mut Task, op: &Op, stats: &mut Stats, rh: &mut u64) -> Step {
             format!("current_pos wrong:{}:lazy={}:failed={}", cls, t.lazy as u8, t.failed as u8),
             format!("{} current_pos::<{}>() = {} but the absolute position is {}", kindname, TY_NAMES[ty as usize], g, t.pos),
         )),
-        None if fits && t.pos < TWO64 => Step::Fail(Violation::new(
+        // (a position beyond 2^64 bytes is representable in u128 and must be reported there as well)
+        None if fits => Step::Fail(Violation::new(
             props,
             "I2",
             format!("current_pos overflow error although representable:{}", cls),
